@@ -460,7 +460,13 @@ def _first_node(prog):
 def replay_history(prog, hist, mode):
     logging.disable(logging.CRITICAL)
     try:
-        run = _Run(prog, mode)
+        try:
+            run = _Run(prog, mode)
+        except Exception as e:   # noqa
+            return ("exception", _first_node(prog), "construction raised %s" % type(e).__name__)
+        if not hist:
+            run.close()
+            return None
         for h in hist[:-1]:
             run.apply(h, False)
         v = run.apply(hist[-1], True)
